@@ -698,3 +698,211 @@ theorem Book.totE_congr {b b' : Book} (he : b'.pexps = b.pexps) (hh : b'.hist = 
   exact ⟨rfl, rfl⟩
 
 end Sge.Core
+
+namespace Sge.Core
+open Sge Sge.Genesis
+
+/-- the queue written by `prepareOddsExposuresForNextRound` for one outcome -/
+def requeueQ (i : Nat) (oq : Nat × List Nat) : List Nat :=
+  (match oq.2 with
+    | h :: t => if h == i then t else oq.2
+    | [] => oq.2) ++ [i]
+
+theorem requeueQ_not_mem (i o : Nat) (q : List Nat) (h : i ∉ q) : requeueQ i (o, q) = q ++ [i] := by
+  unfold requeueQ
+  cases q with
+  | nil => rfl
+  | cons x xs =>
+    have : (x == i) = false := by
+      simp only [List.mem_cons, not_or] at h
+      simpa using fun c => h.1 c.symm
+    simp [this]
+
+theorem requeueOdds_eq (i : Nat) : requeueOdds i = fun bk oq => bk.setQueue oq.1 (requeueQ i oq) := by
+  funext bk oq
+  rfl
+
+/-- the participation written by `refreshQueueAndState`: liquidity trimmed, round counters reset -/
+def requeuePart (p : Part) (n : Nat) : Part :=
+  { p with crl := p.crl - maxI 0 p.crMaxLoss, notFilled := n, maxLoss := p.maxLoss + p.crMaxLoss, crTotalBet := 0, crMaxLoss := 0 }
+
+/-- the state written by `refreshQueueAndState` -/
+def requeueRes (f : FInfo) (p : Part) (_o : Nat) (R : Book × PExp × List (Nat × Part × PExp)) : FInfo :=
+  { f with book := (R.1.setPart (requeuePart p R.1.oddsCount)).queues.foldl (requeueOdds p.idx) (R.1.setPart (requeuePart p R.1.oddsCount)),
+           uq := f.uq ++ [p.idx],
+           fmap := R.2.2.map fun x => if x.1 == p.idx then (x.1, requeuePart p R.1.oddsCount, x.2.2) else x }
+
+theorem requeue_eq (f : FInfo) (p : Part) (e : PExp) (o : Nat) (hel : p.eligiblePre = true) :
+    requeue f p e o = requeueRes f p o ((f.book.expsOfIdx p.idx).foldl (rollOne true o p.idx) (f.book, e, f.fmap)) := by
+  have helig : decide ((0 : Int) < p.crl - maxI 0 p.crMaxLoss) = true := by
+    unfold Part.eligiblePre at hel
+    simp only [decide_eq_true_eq] at hel ⊢
+    omega
+  unfold requeue requeueRes requeuePart
+  simp only [helig, if_true]
+
+/-- `refreshQueueAndState` for a participation all of whose exposures are closed -/
+theorem requeue_spec (o i : Nat) (f : FInfo) (p : Part) (e : PExp)
+    (hS : SInv f.book (fun _ => True)) (hQ : QV f.book (qvOf f.book o f.uq)) (hasQ : (f.book.getQueue o).isSome)
+    (hp : f.book.getPart i = some p) (hel : p.eligiblePre = true) (hnf0 : p.notFilled = 0) (hiu : i ∉ f.uq) :
+    SInv (requeue f p e o).book (fun _ => True) ∧
+    QV (requeue f p e o).book (qvOf (requeue f p e o).book o (requeue f p e o).uq) ∧
+    ((requeue f p e o).book.getQueue o).isSome ∧ (requeue f p e o).uq = f.uq ++ [i] ∧
+    (requeue f p e o).book.partCount = f.book.partCount ∧ (requeue f p e o).book.uid = f.book.uid ∧
+    (∀ j, j ≠ i → (requeue f p e o).book.getPart j = f.book.getPart j) ∧
+    (∀ o' j, j ≠ i → (requeue f p e o).book.getExp o' j = f.book.getExp o' j) ∧
+    (∀ o' j, (requeue f p e o).book.totE o' j = f.book.totE o' j) ∧
+    (∀ o' j, (requeue f p e o).book.totB o' j = f.book.totB o' j) ∧
+    (∃ p4, (requeue f p e o).book.getPart i = some p4 ∧ p4.addr = p.addr ∧ p4.totalBet = p.totalBet) ∧
+    (∀ j, j ≠ i → (requeue f p e o).item j = f.item j) ∧ (requeue f p e o).allExp = f.allExp := by
+  have hpi : p.idx = i := Book.getPart_idx hp
+  have hrange := (hS.inRange_iff i).mp ⟨p, hp⟩
+  -- every exposure of `i` is closed, so `i` waits in no queue
+  have hsum0 : sumBy (unfAt i) f.book.pexps = 0 := by
+    rw [← hS.nf i p trivial hp, hnf0]; rfl
+  have hall : ∀ y ∈ f.book.pexps, y.idx = i → y.fulfilled = true := by
+    intro y hy hyi
+    have := sumBy_ge_mem (unfAt i) _ (fun z _ => unfAt_nonneg i z) y hy
+    rw [hsum0, unfAt_eq hyi] at this
+    cases hf : y.fulfilled
+    · rw [hf] at this; simp at this
+    · rfl
+  have hnotin : ∀ o' q, qvOf f.book o f.uq o' = some q → i ∉ q := by
+    intro o' q hq hi
+    obtain ⟨y, hy1, hy2⟩ := ((hQ o' q hq).2 i hi).2.2
+    obtain ⟨_, k2, k3⟩ := Book.getExp_key hy1
+    rw [hall y k3 k2] at hy2
+    cases hy2
+  -- the roll
+  obtain ⟨r, hR0⟩ := RollInv.init f.book i hS
+  have hR := rollFold_RollInv o i r f.book (f.book.expsOfIdx i) (f.book, e, f.fmap) hR0
+  have hitems := rollFold_items true o i (f.book.expsOfIdx i) (f.book, e, f.fmap)
+  rw [requeue_eq f p e o hel, hpi]
+  generalize (f.book.expsOfIdx i).foldl (rollOne true o i) (f.book, e, f.fmap) = R at hR hitems
+  obtain ⟨d1, d2, d3⟩ := hR.done
+  -- the store after the roll
+  have hSR : SInv R.1 (fun j => j ≠ i) := by
+    have hgp : ∀ j, R.1.getPart j = f.book.getPart j := by intro j; unfold Book.getPart; rw [hR.parts]
+    refine ⟨by rw [hR.parts]; exact hS.sP, hR.sE, hR.sH, by rw [hR.queues]; exact hS.sQ, by rw [hR.parts, hR.pc]; exact hS.pIdx,
+      by rw [hR.queues, hR.oc]; exact hS.oc, hR.eKey, hR.hKey, ?_, ?_, ?_, ?_⟩
+    · intro j h1 h2 o' ho'
+      rw [hR.queues] at ho'
+      rw [hR.pc] at h2
+      by_cases hj : j = i
+      · rw [hj, hR.geI o', ← hj]; exact hS.eAll j h1 h2 o' ho'
+      · rw [hR.ge o' j hj]; exact hS.eAll j h1 h2 o' ho'
+    · intro j q hj hg
+      rw [hgp] at hg
+      rw [hR.unfJ j hj]; exact hS.nf j q trivial hg
+    · intro j h1 h2
+      rw [hR.cnt j, hR.oc]; exact hS.ne j h1 (by rw [← hR.pc]; exact h2)
+    · intro j hj
+      exact hR.rndJ j hj (hS.rnd j trivial)
+  -- the participation is written back with fresh counters
+  generalize hp4 : requeuePart p R.1.oddsCount = p4
+  have hp4i : p4.idx = i := by rw [← hp4]; exact hpi
+  have hp4f : p4.addr = p.addr ∧ p4.totalBet = p.totalBet ∧ p4.notFilled = R.1.oddsCount := by
+    rw [← hp4]; exact ⟨rfl, rfl, rfl⟩
+  have hgpR : R.1.getPart i = some p := by unfold Book.getPart; rw [hR.parts]; exact hp
+  have hS4 : SInv (R.1.setPart p4) (fun _ => True) := by
+    apply SInv.setPart hSR p4 p (by rw [hp4i]; exact hgpR)
+    · intro j _
+      refine ⟨fun hj => ?_, fun hj => by rw [hp4i] at hj; exact hj⟩
+      rw [hj, hp4i, hp4f.2.2, d2, hR.cnt i, hR.oc]
+      exact (hS.ne i hrange.1 hrange.2).symm
+    · intro j _ hj
+      rw [hj, hp4i]; exact d1
+  -- the queues
+  have hstep : ∀ (bk : Book) (oq : Nat × List Nat), (requeueOdds i bk oq).queues = (bk.setQueue oq.1 (requeueQ i oq)).queues :=
+    fun _ _ => rfl
+  obtain ⟨q1, q2, q3⟩ := foldQueues_self (requeueOdds i) (requeueQ i) hstep (R.1.setPart p4) hS4.sQ
+  have hfields := setQueueFold_fields (requeueQ i) (R.1.setPart p4).queues (R.1.setPart p4)
+  rw [← requeueOdds_eq i] at hfields
+  obtain ⟨f1, f2, f3, f4, f5, f6⟩ := hfields
+  have hbook : (requeueRes f p o R).book = (R.1.setPart p4).queues.foldl (requeueOdds i) (R.1.setPart p4) := by
+    unfold requeueRes
+    simp only [hp4, hpi]
+  have huq : (requeueRes f p o R).uq = f.uq ++ [i] := by unfold requeueRes; simp only [hpi]
+  rw [hbook, huq]
+  generalize hB5 : (R.1.setPart p4).queues.foldl (requeueOdds i) (R.1.setPart p4) = B5 at q1 q2 q3 f1 f2 f3 f4 f5 f6
+  have hge5 : ∀ o' j, B5.getExp o' j = R.1.getExp o' j := by
+    intro o' j; unfold Book.getExp; rw [f2]; rfl
+  have hgq : ∀ o', B5.getQueue o' = (f.book.getQueue o').map (fun q => requeueQ i (o', q)) := by
+    intro o'
+    rw [q1 o']
+    have : (R.1.setPart p4).getQueue o' = f.book.getQueue o' := Book.getQueue_congr hR.queues o'
+    rw [this]
+  have hunfI : ∀ o', (f.book.getQueue o').isSome → B5.unf o' i := by
+    intro o' hs
+    have hk := (Book.getQueue_isSome_iff f.book o').mp hs
+    have h1 := hS.eAll i hrange.1 hrange.2 o' hk
+    rw [← hR.geI o'] at h1
+    obtain ⟨y, hy1, hy2⟩ := d3 o' h1
+    exact ⟨y, by rw [hge5]; exact hy1, hy2⟩
+  have hunfJ : ∀ o' j, j ≠ i → f.book.unf o' j → B5.unf o' j := by
+    intro o' j hj ⟨y, hy1, hy2⟩
+    exact ⟨y, by rw [hge5, hR.ge o' j hj]; exact hy1, hy2⟩
+  refine ⟨SInv.of_stores hS4 f1 f2 f3 f4 f5 q2 q3, ?_, ?_, rfl, by rw [f4]; exact hR.pc, by rw [f6]; exact hR.uid, ?_, ?_, ?_, ?_, ?_, ?_, ?_⟩
+  · -- queue view
+    apply QV.mono hQ (show B5.partCount = f.book.partCount by rw [f4]; exact hR.pc)
+    intro o'' q' hq'
+    unfold qvOf at hq'
+    by_cases ho : o'' = o
+    · simp only [ho, if_true, Option.some.injEq] at hq'
+      subst hq'
+      have hqo : qvOf f.book o f.uq o'' = some f.uq := by simp [qvOf, ho]
+      constructor
+      · rw [List.nodup_append]
+        refine ⟨(hQ o'' f.uq hqo).1, by simp, ?_⟩
+        intro a ha c hc hac
+        simp only [List.mem_cons, List.not_mem_nil, or_false] at hc
+        exact hiu (hc ▸ hac ▸ ha)
+      · intro j hj
+        simp only [List.mem_append, List.mem_cons, List.not_mem_nil, or_false] at hj
+        rcases hj with hj | rfl
+        · exact Or.inl ⟨f.uq, hqo, hj, hunfJ o'' j (fun c => hiu (c ▸ hj))⟩
+        · exact Or.inr ⟨hrange.1, hrange.2, hunfI o'' (by rw [ho]; exact hasQ)⟩
+    · simp only [ho, if_false] at hq'
+      rw [hgq o''] at hq'
+      simp only [Option.map_eq_some_iff] at hq'
+      obtain ⟨q, hq, rfl⟩ := hq'
+      have hqo : qvOf f.book o f.uq o'' = some q := by simp [qvOf, ho, hq]
+      have hni := hnotin o'' q hqo
+      rw [requeueQ_not_mem i o'' q hni]
+      constructor
+      · rw [List.nodup_append]
+        refine ⟨(hQ o'' q hqo).1, by simp, ?_⟩
+        intro a ha c hc hac
+        simp only [List.mem_cons, List.not_mem_nil, or_false] at hc
+        exact hni (hc ▸ hac ▸ ha)
+      · intro j hj
+        simp only [List.mem_append, List.mem_cons, List.not_mem_nil, or_false] at hj
+        rcases hj with hj | rfl
+        · exact Or.inl ⟨q, hqo, hj, hunfJ o'' j (fun c => hni (c ▸ hj))⟩
+        · exact Or.inr ⟨hrange.1, hrange.2, hunfI o'' (by rw [hq]; rfl)⟩
+  · rw [hgq o]
+    cases hc : f.book.getQueue o with
+    | none => rw [hc] at hasQ; cases hasQ
+    | some q => rfl
+  · intro j hj
+    unfold Book.getPart
+    rw [f1]
+    show lookup Part.key [j] (upsert Part.key p4 R.1.parts) = _
+    rw [lookup_upsert_ne Part.key p4 [j] R.1.parts (by simpa [Part.key, hp4i] using fun c : i = j => hj c.symm), hR.parts]
+  · intro o' j hj
+    rw [hge5, hR.ge o' j hj]
+  · intro o' j
+    rw [(Book.totE_congr (b := R.1) f2 f3 o' j).1]; exact hR.tE o' j
+  · intro o' j
+    rw [(Book.totE_congr (b := R.1) f2 f3 o' j).2]; exact hR.tB o' j
+  · refine ⟨p4, ?_, hp4f.1, hp4f.2.1⟩
+    unfold Book.getPart
+    rw [f1, ← hp4i]
+    exact lookup_upsert_self Part.key p4 R.1.parts
+  · intro j hj
+    unfold FInfo.item requeueRes
+    simp only [hpi]
+    rw [find_map_other R.2.2 i j (fun x => (requeuePart p R.1.oddsCount, x.2.2)) hj, hitems j hj]
+  · rfl
+
+end Sge.Core
